@@ -15,7 +15,7 @@ TRUSTED = [
 ]
 ASSUME = [
     'a source next() call returns (one step)',
-    'deadlock-freedom is a theorem for fifo_stream / Parmapper with sources raising ordinary exceptions (C05_fifo_no_deadlock); and for buffer(n >= 3) (C05_buffer3_no_deadlock); refuted for buffer(1)/(2) and BaseException sources; see Props/C05.v',
+    'deadlock-freedom is a theorem for fifo_stream / Parmapper with sources raising ordinary exceptions (C05_fifo_no_deadlock); and for buffer(n >= 1) (C05_buffer_no_deadlock, finalizer as repaired); refuted for BaseException sources and for the finalizer before repair C; see Props/C05.v',
     'ParmapperAsync, process executors, AsyncStream.parmap, AsyncBuffer, SyncIter and AsyncIter are not scheduled: they run for real (real-run parts, watchdog); their interleavings are what the OS / event loop produce',
 ]
 
